@@ -4,12 +4,13 @@ PY_PLAIN = ['none', 'bool', 'str', 'unicode', 'bytes', 'int', 'long', 'float', '
 PY_NAMED = ['name', 'module', 'object', 'object/new', 'object/apply']
 NAMES = ['os.system', 'subprocess.Popen', 'builtins.eval', 'eval', 'exec', 'print', 'open', 'yaml.load', 'os.path.join', 'os', 'sys.modules',
          'vf_canary.Canary', 'vf_canary.canary_fn', 'vf_canary.instance', 'vf_canary.VALUE', 'vf_canary.Plain', 'vf_canary', 'vf_unimported.f', 'vf_unimported.K',
-         'vf_unimported', '', 'a.b.c.garbage', 'nosuchmodule.x', 'os.', '.system', 'os.nosuchattr', 'yaml.constructor.Constructor', 'builtins.object', 'collections.OrderedDict']
+         'vf_unimported', 'vf_canary.ITER', 'vf_canary.STEPPER', 'vf_canary.Canary.computed', 'vf_canarypkg.VALUE', 'vf_canarypkg.unimp', 'vf_canarypkg.unimp.f',
+         'vf_unimppkg.sub.f', 'vf_unimppkg.sub', 'vf_unimppkg', '', 'a.b.c.garbage', 'nosuchmodule.x', 'os.', '.system', 'os.nosuchattr', 'yaml.constructor.Constructor', 'builtins.object', 'collections.OrderedDict']
 OTHER_TAGS = ['!foo', '!f', 'tag:example.org,2011:x', P + 'x', P + 'Str', P + 'python/none:', P + 'int2', P + 'python', P + 'python/', P + 'python/object', P + 'python/name',
               P + 'python/object/apply', P + 'PYTHON/name:os.system', P + 'python/object/newer:os.system', P + 'python/namespace:os.system', 'tag:yaml.org,2002python/name:os.system',
               'tag:python.yaml.org,2002:object/apply:os.system', P + 'ruby/object:Foo', P + 'java/object:java.lang.Runtime']
 KINDS = ['scalar_empty', 'scalar_arg', 'seq', 'map', 'map_full']
-CONTEXTS = ['root', 'seq_item', 'map_value', 'map_key', 'anchored_aliased', 'merge_value', 'merge_alias', 'merge_list', 'in_set', 'in_omap', 'in_pairs',
+CONTEXTS = ['root', 'seq_item', 'map_value', 'map_key', 'anchored_aliased', 'merge_value', 'merge_alias', 'merge_list', 'in_set', 'set_value', 'in_omap', 'omap_key', 'in_pairs',
             'second_doc', 'depth3', 'alias_key', 'inside_merge_source']
 FULL_CONTEXTS = CONTEXTS + ['in_pytuple', 'in_pydict', 'in_pylist_key']
 SPELLINGS = ['bangbang', 'verbatim', 'handle', 'percent']
@@ -103,6 +104,10 @@ def render(tag, kind, context, spelling='bangbang'):
         body = 'x: 1\n<<: {inner: ' + node + ' }\n'
     elif context == 'in_set':
         body = '!!set\n? a\n? ' + node + '\n'
+    elif context == 'set_value':
+        body = '!!set {a: ' + node + ' , b: }\n'
+    elif context == 'omap_key':
+        body = '!!omap\n- ? ' + node + '\n  : 2\n'
     elif context == 'in_omap':
         body = '!!omap\n- a: 1\n- b: ' + node + '\n'
     elif context == 'in_pairs':
